@@ -371,8 +371,10 @@ fn main() {
             .iter()
             .map(|(k, b, kind)| serde_json::json!({"kw": k, "body_open": b, "kind": kind}))
             .collect();
+        // start of the function body's final statement (anchor `fn tail`)
+        let tail = parsed.block.stmts.last().map(|st| range_of(st).start);
         result["sig"] = serde_json::json!({"body_open": body_open, "ret": ret, "has_self": has_self,
-                                          "name": parsed.sig.ident.to_string()});
+                                          "name": parsed.sig.ident.to_string(), "tail": tail});
         result["loops"] = serde_json::Value::Array(loops);
         result["dropped_attrs"] = serde_json::json!(dropped);
     }
